@@ -425,7 +425,7 @@ def run(ctx):
         cv, cd = corpus_inputs()
         quick = ctx.tier != "thorough"
         lemmas = []          # (name, text, description)
-        sim_reading_every = 4 if quick else 1   # reading lemma at the helper's voltage: every 4th distance in quick
+        sim_reading_every = 4   # reading lemma at the helper's voltage: every 4th distance (and all specials)
         passthrough_bad, vbad, dbad, gbad, mono_bad = [], [], [], [], []
         nv = nd = 0
         samples = []
@@ -596,12 +596,14 @@ def search_violations(ctx, state):
             _, o = rig.read(K, v)
             bad = oracle_voltage(S, v, o)
             if bad:
-                per.append((order[bad[0]], not _is_code(v), abs(v), v_violation(S, v, o, *bad)))
+                # prefer ADC codes, then round voltages (1 V, 2.5 V ...), then the nearest to 1 V
+                per.append((order[bad[0]], not _is_code(v), v * 8 != int(v * 8) if finite(v) else True,
+                            abs(v - 1.0), v_violation(S, v, o, *bad)))
             if o[0] == "ok" and finite(o[1]):
                 pairs.append((v, o[1]))
         if per:
-            per.sort(key=lambda t: t[:3])
-            found.append((per[0][0], per[0][3]))
+            per.sort(key=lambda t: t[:4])
+            found.append((per[0][0], per[0][4]))
         m = oracle_monotone([p for p in pairs if _is_code(p[0])]) or oracle_monotone(pairs)
         if m:
             found.append((order["monotone"], mono_violation(S, m)))
